@@ -10,27 +10,38 @@ mod verif_glyf_points {
     use std::{vec, vec::Vec};
 
     //@defaults unit=U01.5g props=C01,C20,C09 tier=quick level=bounded bound="any bytes <=28 B; glyphs declaring <=4 points for read_points_fast, any declared point count for the iterator (first 3 steps)" timeout=900
-    //@harness fns=SimpleGlyph::read_points_fast,SimpleGlyph::num_points
+    //@harness fns=SimpleGlyph::read_points_fast,SimpleGlyph::num_points bound="any bytes <=24 B, glyphs declaring <=3 points"
     #[kani::proof]
-    #[kani::unwind(8)]
+    #[kani::unwind(6)]
     fn glyf_read_points_fast_total() {
-        let buf: [u8; 28] = kani::any();
+        let buf: [u8; 24] = kani::any();
         let len: usize = kani::any();
-        kani::assume(len <= 28);
+        kani::assume(len <= 24);
         let Ok(g) = SimpleGlyph::read(FontData::new(&buf[..len])) else { return; };
         let n = g.num_points();
-        kani::assume(n <= 4);
-        let mut points = [Point::<i32>::default(); 4];
-        let mut flags = [PointFlags::default(); 4];
+        kani::assume(n <= 3);
+        let mut points = [Point::<i32>::default(); 3];
+        let mut flags = [PointFlags::default(); 3];
         let r = g.read_points_fast(&mut points[..n], &mut flags[..n]);
-        // wrong buffer sizes are refused, never indexed
-        let m: usize = kani::any();
-        kani::assume(m <= 4 && m != n);
-        let mut p2 = [Point::<i32>::default(); 4];
-        let mut f2 = [PointFlags::default(); 4];
-        assert!(g.read_points_fast(&mut p2[..m], &mut f2[..n]).is_err());
-        kani::cover!(r.is_ok() && n == 4);
+        kani::cover!(r.is_ok() && n == 3);
         kani::cover!(r.is_err() && n == 3);
+    }
+    //@harness fns=SimpleGlyph::read_points_fast bound="any bytes <=16 B" note="buffers of the wrong size are refused, never indexed"
+    #[kani::proof]
+    #[kani::unwind(6)]
+    fn glyf_read_points_fast_wrong_len() {
+        let buf: [u8; 16] = kani::any();
+        let len: usize = kani::any();
+        kani::assume(len <= 16);
+        let Ok(g) = SimpleGlyph::read(FontData::new(&buf[..len])) else { return; };
+        let n = g.num_points();
+        let m: usize = kani::any();
+        let k: usize = kani::any();
+        kani::assume(m <= 3 && k <= 3 && (m != n || k != n));
+        let mut p2 = [Point::<i32>::default(); 3];
+        let mut f2 = [PointFlags::default(); 3];
+        assert!(matches!(g.read_points_fast(&mut p2[..m], &mut f2[..k]), Err(ReadError::InvalidArrayLen)));
+        kani::cover!(n == 2 && m == 2 && k == 3);
     }
     //@harness fns=SimpleGlyph::points,PointIter::next,PointIter::advance_flags,PointIter::advance_points,resolve_coords_len
     #[kani::proof]
